@@ -44,7 +44,7 @@ func (P *Prog) lemmaObls(lm *Lemma) (obls []*Obligation) {
 		}
 	}()
 	st := &State{declSet: map[string]bool{}, heaps: map[string]string{}, hsort: map[string]string{}, cells: map[*Cell]Val{},
-		written: map[string]bool{}, ghost: map[string]string{}}
+		written: map[string]bool{}, ghost: map[string]string{}, boolDef: map[string]string{}, factSet: map[string]bool{}}
 	st.declare("top_0", "Int")
 	st.top = "top_0"
 	env := &Env{st: st, vars: map[string]Val{}, pkg: lm.Pkg}
